@@ -100,6 +100,9 @@ func hsCaseFor(c *hsConfig, route string, script []hsRecv, auths []interface{}, 
 	hc := &hsCase{Cfg: hsCfg{Sid: hsSid, Node: hsServerNode, CompOpts: c.comp, EncOpts: c.enc, SchemeOpts: c.schemes,
 		SupComp: []string{"none"}, SupEnc: []string{"none", "tls"}},
 		Recvs: script, Auths: auths, SendOk: []bool{}, SetEncOk: route == "pipe-tls", Enc0: "none", Route: route}
+	if route == "inproc" {
+		hc.Cfg.SupEnc = []string{"none"}
+	}
 	if regOk {
 		n := hsAssigned
 		hc.Regs = []*codec.VNode{&n, &n}
@@ -271,7 +274,7 @@ func hssrvMode(judge hsJudge, prop string) Mode {
 					}
 					routes := []string{"pipe"}
 					if inList(cfg.enc, "tls") {
-						routes = append(routes, "pipe-tls")
+						routes = append(routes, "pipe-tls", "pipe-tls-bad")
 					}
 					for _, route := range routes {
 						var sample func() bool
